@@ -651,6 +651,30 @@ def add_prefix_readers(pack):
     c.replay(lambda m, ctx, ob: LOC_REPLAY)
     c.replay_without_model = True
 
+    # ---- #?( ... ): the wrapper that shortens tracebacks must not turn "more input needed" into "malformed"
+    def cond_setup(eng, st):
+        psetup(eng, st)
+
+        def cond(e, s, a, k):
+            s1, s2, s3 = s, s.copy(), s.copy()
+            s2.ghost["inner_exc"] = "eof"
+            s3.ghost["inner_exc"] = "syntax"
+            yield s1, SV(V.fresh_val("conditional"))
+            yield s2, Raise(Exc(rd.UnexpectedEOFError, ("Unexpected EOF in reader conditional",), note="the text ended inside the conditional"))
+            yield s3, Raise(Exc(rd.SyntaxError, ("malformed reader conditional",), note="malformed conditional"))
+
+        eng.models[id(rd._read_reader_conditional)] = Model("_read_reader_conditional (returns, or raises either kind of syntax error)", cond)
+
+    c = pack.contract("basilisp.lang.reader:_read_reader_conditional_macro")
+    c.param("ctx", OBJ(RC))
+    c.setup(cond_setup)
+    c.requires("the stream reader is well-formed", lambda a: WF(a.eng, a.pre.st, reader_of(a)))
+    c.raises(rd.SyntaxError)
+    c.ensures_on_raise("an unexpected end of input inside a reader conditional is still reported as UnexpectedEOFError (the REPL's cue), not as a malformed form",
+                       lambda a: z3.BoolVal(a.post.st.ghost.get("inner_exc") != "eof" or (a.exc.pycls is not None and issubclass(a.exc.pycls, rd.UnexpectedEOFError))))
+    c.replay(lambda m, ctx, ob: PREFIX_REPLAY)
+    c.replay_without_model = True
+
     # ---- whitespace: skipped up to, and never beyond, the first character that is not whitespace (or a comma)
     import sys as _sys
 
@@ -797,7 +821,7 @@ def contains_eof(form):
         return any(contains_eof(x) for x in form) if not isinstance(form, (str, bytes)) else False
     except TypeError:
         return False
-for text in ["'", "@", "~", "~@", "`", "^", "^:a", "^{:a 1}", "#_", "'  ", "' ;c\n", "@ ", "^:a  ", "(quote", "'(", "'a", "@a", "~a", "~@a", "`a", "^:a b", "#_a"]:
+for text in ["'", "@", "~", "~@", "`", "^", "^:a", "^{:a 1}", "#_", "'  ", "' ;c\n", "@ ", "^:a  ", "(quote", "'(", "#?(", "#?(:lpy 1", "[#?(:lpy", "'a", "@a", "~a", "~@a", "`a", "^:a b", "#_a"]:
     complete = text in ("'a", "@a", "~a", "~@a", "`a", "^:a b", "#_a")
     try:
         forms = list(reader.read_str(text))
